@@ -47,6 +47,7 @@ func gkCases() []gkCase {
 	var nilI *int
 	var nilF *float64
 	var nilS *string
+	big3e9 := "3000000000"
 	var nilB *bool
 	var nilT *time.Time
 	var nilU8 *uint8
@@ -83,6 +84,18 @@ func gkCases() []gkCase {
 		{"string", s, map[string]interface{}{"String": "text", "ID": "text"}},
 		{"*string", &s, map[string]interface{}{"String": "text", "ID": "text"}},
 		{"string-empty", "", map[string]interface{}{"String": "", "ID": ""}},
+		// numeric strings: an Int position takes the ones inside 32 bits only
+		{"string-3e9", "3000000000", map[string]interface{}{"String": "3000000000", "ID": "3000000000", "Int": nil}},
+		{"*string-3e9", &big3e9, map[string]interface{}{"String": "3000000000", "ID": "3000000000", "Int": nil}},
+		{"string--2^32", "-4294967296", map[string]interface{}{"String": "-4294967296", "Int": nil}},
+		{"string-2^31", "2147483648", map[string]interface{}{"String": "2147483648", "Int": nil}},
+		{"string--2^31-1", "-2147483649", map[string]interface{}{"String": "-2147483649", "Int": nil}},
+		{"string-max32", "2147483647", map[string]interface{}{"String": "2147483647", "Int": float64(2147483647)}},
+		{"string-min32", "-2147483648", map[string]interface{}{"String": "-2147483648", "Int": float64(-2147483648)}},
+		{"string-2^63-1", "9223372036854775807", map[string]interface{}{"String": "9223372036854775807", "Int": nil}},
+		{"string-1e20", "100000000000000000000", map[string]interface{}{"String": "100000000000000000000", "Int": nil}},
+		{"string-1e10", "1e10", map[string]interface{}{"String": "1e10", "Int": nil}},
+		{"string-3e9.0", "3000000000.0", map[string]interface{}{"String": "3000000000.0", "Int": nil}},
 		{"bool", b, map[string]interface{}{"Boolean": true}},
 		{"*bool", &b, map[string]interface{}{"Boolean": true}},
 		{"bool-false", false, map[string]interface{}{"Boolean": false}},
